@@ -9,9 +9,9 @@ use crate::*;
 pub struct Tab {
     pub cap: usize,
     pub keys: Array<f64>,
-    pub indices: Vec<usize>,
+    pub indices: [usize; 4],
     pub len: usize,
-    pub starts: Vec<usize>,
+    pub starts: [usize; 4],
 }
 fn is_live(x: f64) -> bool {
     !x.is_any_empty_cell() && !x.is_any_tombstone()
@@ -72,24 +72,24 @@ fn wf(k: &[f64], idx: &[usize], len: usize, cap: usize, starts: &[usize]) -> boo
 }
 /// An arbitrary well-formed table of capacity `cap`, plus a query key with its own start slot.
 fn any_table(cap: usize) -> (Tab, f64, usize) {
-    let mut k = Vec::new();
-    let mut idx = Vec::new();
-    let mut starts = Vec::new();
+    // fixed-size symbolic arrays, only the first `cap` entries are used (no heap in the model)
+    let ka: [u64; 4] = kani::any();
+    let idx: [usize; 4] = kani::any();
+    let starts: [usize; 4] = kani::any();
+    let mut kb = [0.0f64; 4];
     let mut i = 0;
     while i < cap {
-        k.push(f64::from_bits(kani::any()));
-        let ix: usize = kani::any();
-        kani::assume(ix < 4);
-        idx.push(ix);
-        let st: usize = kani::any();
-        kani::assume(st < cap);
-        starts.push(st);
+        kb[i] = f64::from_bits(ka[i]);
+        kani::assume(idx[i] < 4 && starts[i] < cap);
         i += 1;
     }
-    let len = nlive(&k);
-    kani::assume(wf(&k, &idx, len, cap, &starts));
+    let k = &kb[..cap];
+    let len = nlive(k);
+    kani::assume(wf(k, &idx, len, cap, &starts));
     let q = f64::from_bits(kani::any());
-    kani::assume(q.to_bits() != WILDCARD_NAN.to_bits());
+    // the query is an ordinary key: not the wildcard and not one of the two sentinel payloads
+    // (which cannot be told from a free cell by construction; only `⌝bytes` can make them)
+    kani::assume(q.to_bits() != WILDCARD_NAN.to_bits() && is_live(q));
     let mut qstart: usize = kani::any();
     kani::assume(qstart < cap);
     // the hash respects equality: a query equal to a live key starts where that key starts
@@ -100,19 +100,9 @@ fn any_table(cap: usize) -> (Tab, f64, usize) {
         }
         i += 1;
     }
-    // declare the hash function to the shim
+    // declare the (arbitrary, equality-respecting) hash of the query key to the shim
     unsafe {
-        let mut n = 0;
-        let mut i = 0;
-        while i < cap {
-            if is_live(k[i]) {
-                STARTS[n] = (k[i].to_bits(), starts[i]);
-                n += 1;
-            }
-            i += 1;
-        }
-        STARTS[n] = (q.to_bits(), qstart);
-        NSTARTS = n + 1;
+        QSTART = qstart;
     }
     (Tab { cap, keys: list(k), indices: idx, len, starts }, q, qstart)
 }
@@ -130,7 +120,7 @@ fn find(t: &Tab, q: f64) -> Option<usize> {
 pub fn ck_remove(cap: usize) {
     let (t0, q, _qs) = any_table(cap);
     let mut t = t0.clone();
-    let r = remove_impl(&mut t.keys, scalar(q), &mut t.indices, &mut t.len, cap);
+    let r = remove_impl(&mut t.keys, scalar(q), &mut t.indices[..cap], &mut t.len, cap);
     match find(&t0, q) {
         Some(c) => {
             // removed keys are absent: exactly that cell becomes a tombstone, its index is returned
@@ -162,7 +152,7 @@ pub fn ck_remove(cap: usize) {
 }
 pub fn ck_get(cap: usize) {
     let (t0, q, _qs) = any_table(cap);
-    let mk = MapKeys { keys: Value::Num(t0.keys.clone()), indices: t0.indices.clone(), len: t0.len };
+    let mk = MapKeys { keys: Value::Num(t0.keys), indices: t0.indices, cap, len: t0.len };
     let r = mk.get(&Value::Num(scalar(q)));
     match find(&t0, q) {
         Some(c) => assert!(r == Some(t0.indices[c])),
@@ -174,7 +164,7 @@ pub fn ck_insert(cap: usize) {
     let mut t = t0.clone();
     let index: usize = kani::any();
     kani::assume(index < 8);
-    let r = insert_impl(&mut t.keys, &mut t.indices, scalar(q), index, &mut t.len, cap);
+    let r = insert_impl(&mut t.keys, &mut t.indices[..cap], scalar(q), index, &mut t.len, cap);
     match find(&t0, q) {
         Some(c) => {
             // the latest value inserted for a key wins: the old index is reported, the cell keeps the key
@@ -208,9 +198,9 @@ pub fn ck_insert(cap: usize) {
                 assert!(!is_live(t0.keys.data[at]));
                 assert!(t.keys.data[at].to_bits() == q.to_bits() && t.indices[at] == index);
                 // and it can be found again from its start slot
-                let mut st = t0.starts.clone();
+                let mut st = t0.starts;
                 st[at] = qstart;
-                assert!(wf(&t.keys.data, &t.indices, t.len, cap, &st) || t.indices.iter().filter(|&&x| x == index).count() > 1);
+                assert!(wf(&t.keys.data, &t.indices, t.len, cap, &st) || t.indices[..cap].iter().filter(|&&x| x == index).count() > 1);
                 assert!(reachable(&t.keys.data, cap, at, qstart));
             }
             Err(_) => {
@@ -244,7 +234,7 @@ pub fn ck_set_tombstones(cap: usize) {
 
 //@ id=C16.e3.map.wf_reachable props=C16 level=bounded tier=quick expect=fail budget=600 desc="vacuity guard: the representation invariant admits a table with a live NaN key, a tombstone and a colliding key"
 #[kani::proof]
-#[kani::unwind(8)]
+#[kani::unwind(5)]
 fn h_wf_reach() {
     let (t, q, _) = any_table(3);
     kani::assume(t.len == 2 && t.keys.data[0].is_any_tombstone() && t.keys.data[1].is_nan() && t.starts[2] == 0 && q.is_nan());
@@ -252,52 +242,52 @@ fn h_wf_reach() {
 }
 //@ id=C16.e3.map.remove_impl.cap2 props=C16,C05,C09 level=bounded tier=quick budget=900 bound="capacity 2" desc="remove: Some(index) iff the key is present in a LIVE cell; exactly that cell becomes a tombstone, len decremented; absent keys (NaN, -0 included) change nothing; invariant preserved"
 #[kani::proof]
-#[kani::unwind(8)]
+#[kani::unwind(4)]
 fn h_remove_2() {
     ck_remove(2);
 }
 //@ id=C16.e3.map.remove_impl.cap3 props=C16,C05,C09 level=bounded tier=thorough budget=3000 bound="capacity 3" desc="remove, capacity 3"
 #[kani::proof]
-#[kani::unwind(8)]
+#[kani::unwind(5)]
 fn h_remove_3() {
     ck_remove(3);
 }
 //@ id=C16.e3.map.get.cap2 props=C16,C09 level=bounded tier=quick budget=900 bound="capacity 2" desc="get/has: Some(index) iff the key is present in a live cell"
 #[kani::proof]
-#[kani::unwind(8)]
+#[kani::unwind(6)]
 fn h_get_2() {
     ck_get(2);
 }
 //@ id=C16.e3.map.get.cap3 props=C16,C09 level=bounded tier=thorough budget=3000 bound="capacity 3" desc="get/has, capacity 3"
 #[kani::proof]
-#[kani::unwind(8)]
+#[kani::unwind(7)]
 fn h_get_3() {
     ck_get(3);
 }
 //@ id=C16.e3.map.insert_impl.cap2 props=C16,C05,C09 level=bounded tier=quick budget=1500 bound="capacity 2" desc="insert: replaces the index of a present key (reporting the old one) or claims exactly one free cell reachable from the key's start slot, len incremented; Err only when the table is full of other keys"
 #[kani::proof]
-#[kani::unwind(8)]
+#[kani::unwind(4)]
 fn h_insert_2() {
     ck_insert(2);
 }
 //@ id=C16.e3.map.insert_impl.cap3 props=C16,C05,C09 level=bounded tier=thorough budget=6000 bound="capacity 3" desc="insert, capacity 3"
 #[kani::proof]
-#[kani::unwind(8)]
+#[kani::unwind(5)]
 fn h_insert_3() {
     ck_insert(3);
 }
 //@ id=C16.e3.map.set_tombstones.cap3 props=C16,C09 level=bounded tier=quick budget=600 bound="capacity 3" desc="set_tombstones marks exactly the given cells"
 #[kani::proof]
-#[kani::unwind(8)]
+#[kani::unwind(5)]
 fn h_set_tombstones_3() {
     ck_set_tombstones(3);
 }
 //@ id=C16.e3.map.canary props=C16 level=bounded tier=quick expect=fail budget=600 desc="deliberately false: remove never finds anything"
 #[kani::proof]
-#[kani::unwind(8)]
+#[kani::unwind(4)]
 fn h_canary() {
     let (t0, q, _) = any_table(2);
     let mut t = t0.clone();
-    let r = remove_impl(&mut t.keys, scalar(q), &mut t.indices, &mut t.len, 2);
+    let r = remove_impl(&mut t.keys, scalar(q), &mut t.indices[..2], &mut t.len, 2);
     assert!(r.is_none());
 }
